@@ -20,7 +20,7 @@
 typedef struct {
     char id[64], gen[16], out[512];
     int n, P, ps, relax, maxsuper, pert, order, dens, lowfill, kl, ku, vstyle, full, timeout, nrhs, last, fulldiag;
-    int refact, dyn, nzc, zc[64]; long lwork; char focus[32]; int focuspct, focusus;
+    int refact, dyn, nzc, zc[64]; long lwork; char focus[32]; int focuspct, focusus; int usepr, npermr, permr[256], zd;
     unsigned long seed; double u; int par[4096]; int npar; char patstr[4096];
 } job_t;
 
@@ -57,6 +57,12 @@ static void parse_job(char *line, job_t *J)
 	else if (!strcmp(tok, "pat")) strncpy(J->patstr, v, 4095);
 	else if (!strcmp(tok, "refact")) J->refact = atoi(v);
 	else if (!strcmp(tok, "dyn")) J->dyn = atoi(v);
+	else if (!strcmp(tok, "usepr")) J->usepr = atoi(v);
+	else if (!strcmp(tok, "zd")) J->zd = atoi(v);
+	else if (!strcmp(tok, "permr")) {
+	    char *s2 = 0, *t; J->npermr = 0;
+	    for (t = strtok_r(v, ",", &s2); t && J->npermr < 256; t = strtok_r(0, ",", &s2)) J->permr[J->npermr++] = atoi(t);
+	}
 	else if (!strcmp(tok, "focus")) strncpy(J->focus, v, 31);
 	else if (!strcmp(tok, "focuspct")) J->focuspct = atoi(v);
 	else if (!strcmp(tok, "focusus")) J->focusus = atoi(v);
@@ -85,7 +91,7 @@ static int run_job(job_t *J)
     rng_t R; mat_t M; char *pat = 0; int_t n = J->n, i, j, info = 0;
     SuperMatrix A, AC, L, U, B; superlumt_options_t o; Gstat_t G;
     int_t *perm_c, *perm_r; FILE *f; unsigned long cksA[3];
-    int thr_before, thr_after; void *work = 0;
+    int thr_before, thr_after; void *work = 0; int_t *old_pr = 0; int use_old = 0;
     R.s = J->seed * 7919ul + 17;
     if (!strcmp(J->gen, "forest")) pat = pat_forest(n, J->par, J->dens, J->lowfill, &R);
     else if (!strcmp(J->gen, "random")) pat = pat_random(n, J->dens, J->fulldiag, &R);
@@ -99,6 +105,8 @@ static int run_job(job_t *J)
     mat_from_pattern(&M, n, pat, J->vstyle, &R);
     for (i = 0; i < J->nzc; ++i) if (J->zc[i] >= 0 && J->zc[i] < n)
 	for (j = M.colptr[J->zc[i]]; j < M.colptr[J->zc[i] + 1]; ++j) M.val[j] = mk_scalar(0.0, 0.0);
+    if (J->zd) for (j = 0; j < n; ++j) for (i = M.colptr[j]; i < M.colptr[j + 1]; ++i)      /* explicit zeros on the diagonal */
+	if (M.rowind[i] == j && (int) rng_int(&R, 100) < J->zd) M.val[i] = mk_scalar(0.0, 0.0);
     G(Create_CompCol_Matrix)(&A, n, n, M.nnz, M.val, M.rowind, M.colptr, SLU_NC, SLU_DT, SLU_GE);
     cksA[0] = fnv(M.val, sizeof(SCALAR) * M.nnz); cksA[1] = fnv(M.rowind, sizeof(int_t) * M.nnz); cksA[2] = fnv(M.colptr, sizeof(int_t) * (n + 1));
     vrt_ienv[1] = J->ps; vrt_ienv[2] = J->relax; vrt_ienv[3] = J->maxsuper;
@@ -107,7 +115,8 @@ static int run_job(job_t *J)
     StatAlloc(n, J->P, J->ps, J->relax, &G); StatInit(n, J->P, &G);
     if (J->dyn) setenv("SuperLU_DYNAMIC_SNODE_STORE", "1", 1);
     if (J->lwork > 0) work = malloc(J->lwork);
-    PG(gstrf_init)(J->P, DOFACT, NOTRANS, NO, J->ps, J->relax, J->u, NO, 0.0, perm_c, perm_r, work, J->lwork, &A, &AC, &o, &G);
+    if (J->usepr && J->npermr == n) for (i = 0; i < n; ++i) perm_r[i] = J->permr[i];
+    PG(gstrf_init)(J->P, DOFACT, NOTRANS, NO, J->ps, J->relax, J->u, (J->usepr && !J->refact) ? YES : NO, 0.0, perm_c, perm_r, work, J->lwork, &A, &AC, &o, &G);
     if (J->refact) {   /* first factorization unrecorded, then new values on the same pattern and refactor */
 	PG(gstrf)(&o, &AC, perm_r, &L, &U, &G, &info);
 	if (info != 0) { fprintf(stderr, "first factorization info %ld\n", (long) info); }
@@ -119,6 +128,8 @@ static int run_job(job_t *J)
 	StatInit(n, J->P, &G);
 	PG(gstrf_init)(J->P, DOFACT, NOTRANS, YES, J->ps, J->relax, J->u, J->refact == 2 ? YES : NO, 0.0, perm_c, perm_r, work, J->lwork, &A, &AC, &o, &G);
     }
+    old_pr = intMalloc(n); for (i = 0; i < n; ++i) old_pr[i] = perm_r[i];
+    use_old = (o.usepr == YES);
     thr_before = vrt_thread_count();
     vrt_perturb(J->pert, (unsigned) J->seed);
     if (J->focus[0]) vrt_perturb_focus(J->focus, J->focuspct ? J->focuspct : 50, J->focusus ? J->focusus : 300);
@@ -168,7 +179,36 @@ static int run_job(job_t *J)
 	fprintf(f, ",\"extract\":%d", bad);
 	if (!bad) {
 	    rr = recon_ratio(n, Ad, perm_r, perm_c, Ld, Ud, BOUND_U, &maxl);
-	    fprintf(f, ",\"recon\":%ld,\"maxl\":%ld", permille(rr), permille(maxl * (J->u > 0 ? J->u : 0)));
+	    fprintf(f, ",\"recon\":%ld,\"maxl\":%ld,\"u1000\":%d,\"usepr\":%d", permille(rr), permille(maxl * (J->u > 0 ? J->u : 0)), (int) (J->u * 1000), use_old);
+	    {   /* abstract inputs and outcome of the pivot policy at every step, reconstructed from the returned factors:
+		   class of a candidate row: 0 = not a candidate (already pivoted), 1 = candidate but zero or below the threshold,
+		   2 = eligible (nonzero and >= u * max, clear of rounding), 3 = within rounding of the threshold (undecided) */
+		int_t *ipc = intMalloc(n), *ipr = intMalloc(n), *iold = intMalloc(n); long double tol = 16.0L * UNIT_ROUNDOFF;
+		for (j = 0; j < n; ++j) { ipc[perm_c[j]] = j; ipr[perm_r[j]] = j; }
+		if (use_old) for (j = 0; j < n; ++j) iold[old_pr[j]] = j;
+		fprintf(f, ",\"pivsteps\":[");
+		for (j = 0; j < n; ++j) {
+		    long double M = 1.0L, uu = (long double) J->u; int cls[2], who[2], k2, choice = 0;
+		    for (i = j + 1; i < n; ++i) { long double a = cabsl(Ld[i + (long) j * n]); if (a > M) M = a; }
+		    who[0] = ipc[j];                       /* the row with the original index of this column: the diagonal of A */
+		    who[1] = use_old ? iold[j] : -1;       /* the row the caller asked for */
+		    for (k2 = 0; k2 < 2; ++k2) {
+			int r = who[k2]; long double v;
+			if (r < 0) { cls[k2] = 0; continue; }
+			if (perm_r[r] < j) { cls[k2] = 0; continue; }
+			v = perm_r[r] == j ? 1.0L : cabsl(Ld[perm_r[r] + (long) j * n]);    /* |value| / |pivot| */
+			if (v == 0) cls[k2] = 1;
+			else if (v >= uu * M * (1.0L + tol) || (uu == 0)) cls[k2] = 2;
+			else if (v < uu * M * (1.0L - tol)) cls[k2] = 1;
+			else cls[k2] = (v == uu * M && M == 1.0L) ? 2 : 3;     /* an exact tie with the maximum counts as eligible */
+		    }
+		    if (ipr[j] == who[0]) choice |= 1;
+		    if (who[1] >= 0 && ipr[j] == who[1]) choice |= 2;
+		    fprintf(f, "%s[%d,%d,%d]", j ? "," : "", cls[0], cls[1], choice);
+		}
+		fprintf(f, "]");
+		SUPERLU_FREE(ipc); SUPERLU_FREE(ipr); SUPERLU_FREE(iold);
+	    }
 	    if (J->nrhs > 0) {   /* solve with the returned factors: B = A * xtrue */
 		int_t nrhs = J->nrhs, c; SCALAR *b = scalarMalloc(n * nrhs); lc *Bd = lc_zeros((long) n * nrhs), *Xd = lc_zeros((long) n * nrhs), *W;
 		int_t sinfo = 0;
